@@ -279,6 +279,12 @@ inductive Op where
   | bsine (k : Nat) (h : Nat) (lists : List (List Val)) (n w cl : Bool)   -- k = 0: cheby, 1..3: sine1..3
   | bnorm (h : Nat) (max : Val) (wt : Bool)
   | bcopy (h d : Nat) (dstStart start num : Val)
+  | subbus (h : Nat) (off ch : Int)                      -- `bus.sub_bus(off, ch)` (= `new_from`)
+  | bread (h : Nat) (fs fr bs : Int) (lo : Bool)        -- `read(path, fs, fr, bs, lo)`
+  | bloadlist (h : Nat) (start : Int)                   -- `load_list(lst, start)`
+  | bwrite (h : Nat) (hdr : String) (frames start : Int) (lo : Bool) (cm : Completion)
+  | ballocread (h : Nat) (start frames : Int) (cm : Completion)
+  | bcue (h : Nat) (start : Int) (cm : Completion)
   | register (h : Nat)          -- `node.register()`: NodeWatcher bookkeeping, nothing is sent
   | sync                        -- `yield from s.sync()` (RT: `addr.sync()`)
   | bind | endBind | raise
@@ -427,6 +433,10 @@ def allocIn (a : CBA) (n : Int) : Option (CBA × Option Nat) :=
   else match a.alloc n.toNat 0 with
     | .ok r => some r
     | .error _ => none
+
+/-- the sound file paths the harness passes (`load_list` writes a temporary file: `PATH`) -/
+def readPath : String := "/tmp/c17in.wav"
+def writePath : String := "/tmp/c17out"
 
 def Core.stepCore (c : Core) : Op → Res
   | .synth paused name tgt act args =>
@@ -627,6 +637,40 @@ def Core.stepCore (c : Core) : Op → Res
         let a ← atomArg c dstStart; let b ← atomArg c start; let n ← atomArg c num
         pure (di, a, b, n))
       fun i p => ("/b_gen", [ai p.1, as "copy", p.2.1, ai i, p.2.2.1, p.2.2.2])
+  | .subbus h off ch =>
+    match c.buses[h]? with
+    | none => c.skip
+    | some b =>
+      match b.index, b.channels with
+      | some i, some pc =>
+        -- `if offset > bus._channels or channels + offset > bus._channels: raise BusException`
+        if off > pc || ch + off > pc then c.exc "BusException"
+        else ({ c with buses := c.buses ++ [⟨b.audio, some (i + off), some ch⟩] }, .okBus (i + off), [])
+      | _, _ => c.exc "TypeError"           -- freed parent: `offset > None`
+  | .bread h fs fr bs lo =>
+    match c.bufs[h]?.bind (·.bufnum) with
+    | some i =>
+      c.send "/b_read" [ai i, as readPath, ai fs, ai fr, ai bs, .atom (if lo then .tt else .ff),
+                        .msg (.leaf "/b_query" [.int i])]
+    | none => c.skip
+  | .bloadlist h start =>
+    match c.bufs[h]?.bind (·.bufnum) with
+    | some i =>
+      c.send "/b_read" [ai i, as "PATH", ai 0, ai (-1), ai start, .atom .ff, .msg (.leaf "/b_query" [.int i])]
+    | none => c.skip
+  | .bwrite h hdr frames start lo cm =>
+    c.bufCmd h (some ()) fun i _ =>
+      ("/b_write", [ai i, as (writePath ++ "." ++ hdr), as hdr, as "int24", ai frames, ai start,
+                    .atom (if lo then .tt else .ff), complArg cm i])
+  | .ballocread h start frames cm =>
+    match c.bufs[h]?.bind (·.bufnum) with
+    | some i => c.send "/b_allocRead" [ai i, as readPath, ai start, ai frames, complArg cm i]
+    | none => c.skip
+  | .bcue h start cm =>
+    match c.bufs[h]? with
+    | some ⟨some i, some f, _⟩ =>
+      c.send "/b_read" [ai i, as readPath, ai start, ai f, ai 0, .atom .tt, complArg cm i]
+    | _ => c.skip
   | .register h =>
     match c.nodes[h]? with
     | some _ => (c, .ok, [])
